@@ -261,12 +261,6 @@ def judge_fn(ctx, job, res, resps):
                 # function-local imports (ctx.modules / ctx.fns) are not in the model: judged by the oracle alone
                 ctx.hist["model_silent:local_import"] = ctx.hist.get("model_silent:local_import", 0) + 1
                 M = None
-            elif not flags.get("condsAreCmp", True):
-                # a test that is not a comparison (truthiness of a number): sympy treats a bare Symbol condition
-                # specially (accepted by Piecewise, rejected by subs, folded away inside relationals); the model does not
-                # follow that, so these programs are judged by the oracle alone
-                ctx.hist["model_silent:truthiness"] = ctx.hist.get("model_silent:truthiness", 0) + 1
-                M = None
             elif status != "expr" and M["status"] == "expr":
                 # the real translator gives up where the model has an expression: sympy evaluates eagerly while the
                 # expression is built and can fail on the way (nan / zoo in a comparison after 0/0 in a folded piece,
@@ -285,7 +279,8 @@ def judge_fn(ctx, job, res, resps):
         cands = [fid for fid, pred in FINDINGS if pred(feats, flags, ren, res["params"])]
         finding = next((fid for fid in cands if fid in ctx.known), None)
         # a call with keyword arguments only has no Python semantics in the Lean model: outside the theorem's domain
-        in_domain = bool(flags.get("progOk")) and "call_kw_nopos" not in feats and "local_import" not in feats
+        # the theorems have no side condition any more; outside the model are only function-local imports (oracle-only)
+        in_domain = "local_import" not in feats
         if res.get("session2"):
             ctx.hist["session:second_translation"] = ctx.hist.get("session:second_translation", 0) + 1
         nontrivial = status == "expr" and bool(feats & {"if", "ifexp", "call_user", "tuple_assign"} or "=" in res["src"])
